@@ -329,7 +329,8 @@ def _run_op(ctx, op, opts):
     if want_purity:
         after = ctx.fingerprints()
         mutated = sorted(
-            (oid for oid in before if after.get(oid) != before[oid]),
+            (oid for oid in before
+             if oid in after and after[oid] != before[oid]),
             key=str)
         allowed = set()
         for argname in tuple(spec.get('mutates', ())) + tuple(
